@@ -35,6 +35,7 @@ static unsigned long long nd_next(const char *fn)
 #define NDF(type, name) type name(void) { return (type)nd_next(#name); }
 NDF(_Bool, nondet_bool) NDF(size_t, nondet_size) NDF(unsigned char, nondet_uchar) NDF(int, nondet_int)
 NDF(unsigned short, nondet_u16) NDF(unsigned int, nondet_uint) NDF(long long, nondet_i64) NDF(unsigned short, nondet_ushort)
+NDF(unsigned char, nondet_u8) NDF(unsigned int, nondet_u32)
 #define __CPROVER_assume(c) do { if (!(c)) { fprintf(stderr, "REPLAY: counterexample rejected by harness assumption: %s\n", #c); exit(0); } } while (0)
 #define __CPROVER_assert(c, msg) do { if (!(c)) { fprintf(stderr, "REPLAY: violated natively: %s\n", msg); exit(1); } } while (0)
 #define __CPROVER_OBJECT_SIZE(p) malloc_usable_size((void *)(p))
